@@ -20,7 +20,7 @@ use std::collections::BTreeMap;
 use std::path::Path;
 use warp_core::causal_wal::{
     recover_filesystem_store, FilesystemWalStore, Lsn, RecoveryAccessMode, WalCommittedTransaction,
-    WalManifest, WalSegmentId, WalStorePort, WriterEpochId,
+    WalManifest, WalSegmentId, WalStorePort, WalWriterEpoch, WriterEpochId,
 };
 
 /// How the next segment comes to exist.
@@ -224,6 +224,8 @@ pub struct BuiltMulti {
     pub seg_dir_synced: Vec<bool>,
     /// Writer epoch of each segment.
     pub seg_epoch: Vec<WriterEpochId>,
+    /// Writer-epoch evidence as the projection reader wants it (one entry per fenced epoch).
+    pub writer_epochs: Vec<WalWriterEpoch>,
     /// Chain cursor after the last transaction.
     pub chain: Chain,
 }
@@ -286,6 +288,7 @@ pub fn build_multi(root: &Path, spec: &MSpec, variant: u8) -> Result<BuiltMulti,
     let mut epoch = epoch.map_err(|e| format!("acquire epoch: {e:?}"))?;
     Harvest { events: &mut events, ledgers: &mut ledgers, manifests: &mut manifests }.side_files(&evs);
     seg_epoch.push(epoch.epoch_id);
+    let mut writer_epochs = vec![WalWriterEpoch::from_writer_epoch(&epoch)];
     let mut chain = Chain::genesis();
     chain.next_lsn = epoch.started_at_lsn;
 
@@ -311,6 +314,7 @@ pub fn build_multi(root: &Path, spec: &MSpec, variant: u8) -> Result<BuiltMulti,
                     events.push(Ev::SegCreate { seg: seg_id });
                     let (ep, evs) = syncspy::record(|| store.acquire_fresh_writer_epoch(chain.next_lsn));
                     epoch = ep.map_err(|e| format!("acquire epoch on segment {seg_id}: {e:?}"))?;
+                    writer_epochs.push(WalWriterEpoch::from_writer_epoch(&epoch));
                     Harvest { events: &mut events, ledgers: &mut ledgers, manifests: &mut manifests }.side_files(&evs);
                     if !txs.is_empty() && epoch.started_at_lsn != chain.next_lsn {
                         return Err(format!("new epoch starts at LSN {} but the log ends at {}", epoch.started_at_lsn.as_u64(), chain.next_lsn.as_u64()));
@@ -416,6 +420,7 @@ pub fn build_multi(root: &Path, spec: &MSpec, variant: u8) -> Result<BuiltMulti,
         synced_at_ack,
         seg_dir_synced,
         seg_epoch,
+        writer_epochs,
         chain,
     })
 }
